@@ -2,7 +2,10 @@ import Rustic.Model.Check
 import Rustic.Gen.Constants
 import Driver.Util
 /-! `c05 chk <label> <abstract repository state…> | <raw store, ignored here>` — see harness/src/c05.rs.
-Prints `errs=<sorted finding kinds|none|cmd-err> restore=<ok|bad|->` (`-` when errs ≠ none). -/
+Prints `errs=<sorted finding kinds|none|cmd-err> restore=<ok|bad|->` (`-` when errs ≠ none).
+Snapshot tokens carry the delete mark of the snapshot file (`s:<tree>:<auth>:K|A<unix seconds>`); the model of `Repository::check`
+walks every listed snapshot whatever the mark (`Props.C05.check_walks_every_listed_snapshot`), so damage below a marked snapshot is
+predicted exactly like damage below any other. -/
 namespace Driver.C05
 open Rustic.Check
 
@@ -49,6 +52,11 @@ def parseContent (s : String) : Option (Option (List Nat)) :=
   else if s = "e" then some (some [])
   else ((s.splitOn ",").mapM (fun (x : String) => x.toNat?)).map some
 
+def parseMark (s : String) : Option DelMark :=
+  if s = "K" then some .never
+  else if s.startsWith "A" then (s.drop 1).toInt?.map DelMark.after
+  else none
+
 def modifyLast {α} (a : Array α) (f : α → α) : Option (Array α) :=
   if 0 < a.size then some (a.modify (a.size - 1) f) else none
 
@@ -62,6 +70,12 @@ def step (ps : PS) (tok : String) : Option PS :=
     let t ← t.toNat?
     let a ← bool01 a
     pure { ps with snaps := ps.snaps.push { tree := t, authentic := a } }
+  | ["s", t, a, m] => do
+    -- s:<tree>:<authentic>:<delete mark>  (`K` = delete-never, `A<seconds>` = delete-after; snapshots without a mark: 3 fields)
+    let t ← t.toNat?
+    let a ← bool01 a
+    let m ← parseMark m
+    pure { ps with snaps := ps.snaps.push { tree := t, authentic := a, mark := m } }
   | ["i"] => some { ps with index := ps.index.push #[], ctx := 0 }
   | [k, id, time, size] =>
     if k = "p" ∨ k = "d" then do
